@@ -34,6 +34,7 @@ SHARD_TIMEOUT = 1200
 
 libc = ctypes.CDLL(None, use_errno=True)
 SYS_ioprio_get = 252
+SYS_ioprio_set = 251
 RLIMS = sorted((getattr(resource, n), n) for n in dir(resource) if n.startswith("RLIMIT_"))
 
 _env = {}
@@ -166,10 +167,19 @@ def run_ionice(acc):
     ps = c.ps
     try:
         valid = [(0, None), (0, 0), (3, None), (3, 0)] + [(k, v) for k in (1, 2) for v in list(range(8)) + [None]]
-        for rep in range(2):
+        for rep in range(4):
             for k, v in valid:
-                case = dict(kind="ionice", ioclass=k, value=v, oneshot=bool(rep))
-                with c.block(rep):
+                case = dict(kind="ionice", ioclass=k, value=v, oneshot=bool(rep % 2))
+                if rep >= 2:
+                    # what an earlier raw ioprio_set(2) left in the priority word (Linux >= 6.5: an "I/O hint" in the data
+                    # bits above the level; `ionice -c3`: (IDLE, 7)) is no part of the request: a set stores exactly the request
+                    word = ((2 << 13) | (((k or 0) + 1) % 7 + 1) << 3 | 5) if rep == 2 else ((3 << 13) | 7)
+                    if libc.syscall(SYS_ioprio_set, 1, c.target.pid, word) != 0:
+                        acc.count("kernel_refused_planted_ioprio_word")
+                        continue
+                    case["planted_word"] = word
+                    acc.count("sets_over_a_planted_ioprio_word")
+                with c.block(rep % 2):
                     r, viols, tb = c.guarded(lambda: c.p.ionice(k, v), case)
                     acc.count("sets_checked")
                     want = (k, v or 0)
